@@ -400,7 +400,15 @@ class _Inliner:
             out = dict(s)
             pre = []
             if depth > 0 and SX.is_node(s.get('c')) and not s.get('init') and not s.get('cv'):
-                pre, out['c'] = self.nested(s['c'], stack)
+                c0 = SX.strip(s['c'])
+                h = self.closure_callee(c0, stack) if SX.is_node(c0) and c0.get('k') in ('call', 'opcall') else None
+                r = self.expand(c0, h, stack) if (h is not None and getattr(h, 'literal_call', False)) else None
+                if r is not None and r[1] is not None:
+                    # `if (visit(x))` with visit := a closure literal (a higher-order helper was expanded): the literal's body runs
+                    # once, right before the test
+                    pre, out['c'] = r
+                else:
+                    pre, out['c'] = self.nested(s['c'], stack)
             for key in ('t', 'e'):
                 if SX.is_node(s.get(key)):
                     out[key] = self._wrap(self.stmt(s[key], stack, depth), s[key])
@@ -517,7 +525,10 @@ class _Inliner:
                         out.extend(pre)
                         rr = SX.strip(rexp)
                         if not path and SX.is_node(rr) and rr.get('k') == 'ref' and rr.get('kind') in ('var', None) and '@' in str(rr.get('id', '')) \
-                                and _base_type(rr.get('t')) == _base_type(v.get('type')) and not (v.get('type') or '').rstrip().endswith('&'):
+                                and _base_type(rr.get('t')) == _base_type(v.get('type')) \
+                                and (not (v.get('type') or '').rstrip().endswith('&') or
+                                     ((v.get('type') or '').lstrip().startswith('const') and not (getattr(h, 'ret', '') or '').rstrip().endswith('&'))):
+                            # (a const reference bound to a helper's by-value result names that result object for its whole scope)
                             # nrvo: the declared variable is the helper's returned local
                             self.renames[v['id']] = rr['id']
                             continue
